@@ -1,0 +1,25 @@
+//go:build verif
+
+package kmipclient
+
+import "sync/atomic"
+
+// Verification hooks (build tag "verif" only). The harness installs a function that is called
+// at a few named points where the scheduler may preempt anyway, to count visits, yield, or hold
+// the goroutine until the harness releases it. Without the tag verifAt compiles to nothing.
+var verifHook atomic.Pointer[func(point string)]
+
+// VerifSetHook installs (or, with nil, removes) the hook function.
+func VerifSetHook(f func(point string)) {
+	if f == nil {
+		verifHook.Store(nil)
+		return
+	}
+	verifHook.Store(&f)
+}
+
+func verifAt(point string) {
+	if f := verifHook.Load(); f != nil {
+		(*f)(point)
+	}
+}
